@@ -150,7 +150,6 @@ func factAtExpr(f *Flow, n ast.Node, req string) bool {
 
 var otherReviewed = map[string]string{
 	"taskfile/ast.(*Task).WildcardMatch|regexp.MustCompile":      "the pattern consists of regexp.QuoteMeta'd pieces joined by a fixed group (decided by rule pattern-literal, re-run here)",
-	"internal/output.(*prefixWriter).writeLine|%":                 "divisor is len(PrefixColorSequence), a non-empty package-level literal",
 	"internal/deepcopy.TraverseStringsFunc|copy.Interface().(T)":  "the copy is created with reflect.New(original.Type()), so it has the static type T",
 	"taskfile.(*Reader).include$1|edge.Properties.Data.([]*ast.Include)": "edge data is only ever written by this function as []*ast.Include",
 	"taskfile.init|panic":      "init-time registration of the embedded syntax-highlighting style / lexer; independent of user input",
@@ -229,7 +228,12 @@ func c16OtherPanics(c *Check, a *Anchors) {
 			case *ast.BinaryExpr:
 				if x.Op == token.QUO || x.Op == token.REM {
 					if tv, ok := info.Types[x.Y]; ok && tv.Value == nil && tv.Type != nil && isIntType(tv.Type) {
-						report("integer division by a non-constant", x.Op.String(), x.Pos())
+						if v := lenOfNonEmptyPkgVar(c.P, info, x.Y); v != "" {
+							n++
+							c.OK("panic-sites-reviewed", ordinal(ord, fnDisplay(fb)+"|"+x.Op.String()+" len("+v+")"), x.Pos(), "divisor is the length of the package-level literal "+v+", which is non-empty and never reassigned")
+						} else {
+							report("integer division by a non-constant", x.Op.String(), x.Pos())
+						}
 					}
 				}
 			}
@@ -338,4 +342,78 @@ func c16NilElements(c *Check, a *Anchors) {
 		})
 	}
 	c.Floor("yaml-nil-elements", n, 10)
+}
+
+// lenOfNonEmptyPkgVar: e is len(V) (possibly converted) for a package-level variable V initialised with a non-empty composite literal and never assigned elsewhere.
+func lenOfNonEmptyPkgVar(p *Prog, info *types.Info, e ast.Expr) string {
+	e = ast.Unparen(e)
+	if call, ok := e.(*ast.CallExpr); ok && len(call.Args) == 1 {
+		if tv, ok := info.Types[call.Fun]; ok && tv.IsType() {
+			e = ast.Unparen(call.Args[0])
+		}
+	}
+	call, ok := e.(*ast.CallExpr)
+	if !ok || len(call.Args) != 1 {
+		return ""
+	}
+	if id, ok := call.Fun.(*ast.Ident); !ok || id.Name != "len" {
+		return ""
+	}
+	var v *types.Var
+	switch x := ast.Unparen(call.Args[0]).(type) {
+	case *ast.Ident:
+		v, _ = info.Uses[x].(*types.Var)
+	case *ast.SelectorExpr:
+		v, _ = info.Uses[x.Sel].(*types.Var)
+	}
+	if v == nil || v.Pkg() == nil || v.Parent() != v.Pkg().Scope() {
+		return ""
+	}
+	pk := p.Pkgs[v.Pkg().Path()]
+	if pk == nil {
+		return ""
+	}
+	nonEmpty, assigned := false, false
+	for _, f := range pk.Syntax {
+		ast.Inspect(f, func(nd ast.Node) bool {
+			switch s := nd.(type) {
+			case *ast.ValueSpec:
+				for i, id := range s.Names {
+					if pk.TypesInfo.Defs[id] == v && i < len(s.Values) {
+						if cl, ok := ast.Unparen(s.Values[i]).(*ast.CompositeLit); ok && len(cl.Elts) > 0 {
+							nonEmpty = true
+						}
+					}
+				}
+			case *ast.AssignStmt:
+				for _, l := range s.Lhs {
+					if id, ok := ast.Unparen(l).(*ast.Ident); ok && pk.TypesInfo.Uses[id] == v {
+						assigned = true
+					}
+				}
+			}
+			return true
+		})
+	}
+	for _, other := range p.Pkgs {
+		if other == pk {
+			continue
+		}
+		for _, f := range other.Syntax {
+			ast.Inspect(f, func(nd ast.Node) bool {
+				if as, ok := nd.(*ast.AssignStmt); ok {
+					for _, l := range as.Lhs {
+						if sel, ok := ast.Unparen(l).(*ast.SelectorExpr); ok && other.TypesInfo.Uses[sel.Sel] == v {
+							assigned = true
+						}
+					}
+				}
+				return true
+			})
+		}
+	}
+	if nonEmpty && !assigned {
+		return v.Name()
+	}
+	return ""
 }
